@@ -2394,9 +2394,45 @@ def _c17_spawn_nest_harnesses(prop):
     return out
 
 
+def _c01_async_stream_harnesses(prop):
+    """C01 in the async kinds over STREAMS (native only): on a stream of Results `=>` / `!>` / `<=` / `?^@` are the
+    TryStreamExt methods, on a plain stream `|>` / `?>` / `?|>` / `>^>` / `^@` the StreamExt ones - each compared with the
+    documented method chain written out by hand in the same program (all four extension traits of the generated `use`)"""
+    out = []
+    SRC = "futures::stream::iter(vec![Ok::<u8, u8>(a), Ok(2), Err(7), Ok(4)])"
+    PLAIN = "futures::stream::iter(vec![a, 2u8, 7, 4])"
+    progs = [
+        ("and_then_map_err", "join_async", "%s => |v: u8| futures::future::ok::<u8, u8>(v.wrapping_add(1)) !> |e: u8| e.wrapping_add(1) =>[] Vec<Result<u8, u8>>" % SRC,
+         "{ use futures::{StreamExt, TryStreamExt}; %s.and_then(|v: u8| futures::future::ok::<u8, u8>(v.wrapping_add(1))).map_err(|e: u8| e.wrapping_add(1)).collect::<Vec<Result<u8, u8>>>().await }" % SRC, "Vec<Result<u8, u8>>"),
+        ("or_else", "join_async", "%s <= |e: u8| futures::future::ready(if e == 7 { Ok::<u8, u8>(70) } else { Err(e) }) =>[] Vec<Result<u8, u8>>" % SRC,
+         "{ use futures::{StreamExt, TryStreamExt}; %s.or_else(|e: u8| futures::future::ready(if e == 7 { Ok::<u8, u8>(70) } else { Err(e) })).collect::<Vec<Result<u8, u8>>>().await }" % SRC, "Vec<Result<u8, u8>>"),
+        ("try_fold", "try_join_async", "%s ?^@ 0u8, |acc: u8, v: u8| futures::future::ready(Ok::<u8, u8>(acc.wrapping_add(v)))" % SRC,
+         "{ use futures::TryStreamExt; %s.try_fold(0u8, |acc: u8, v: u8| futures::future::ready(Ok::<u8, u8>(acc.wrapping_add(v)))).await }" % SRC, "Result<u8, u8>"),
+        ("try_fold_ok", "try_join_async", "futures::stream::iter(vec![Ok::<u8, u8>(a), Ok(2)]) ?^@ 0u8, |acc: u8, v: u8| futures::future::ready(Ok::<u8, u8>(acc.wrapping_add(v)))",
+         "{ use futures::TryStreamExt; futures::stream::iter(vec![Ok::<u8, u8>(a), Ok(2)]).try_fold(0u8, |acc: u8, v: u8| futures::future::ready(Ok::<u8, u8>(acc.wrapping_add(v)))).await }", "Result<u8, u8>"),
+        ("try_fold_spawn", "try_join_async_spawn", "futures::stream::iter(vec![Ok::<u8, u8>(a), Ok(2)]) ?^@ 0u8, |acc: u8, v: u8| futures::future::ready(Ok::<u8, u8>(acc.wrapping_add(v)))",
+         "{ use futures::TryStreamExt; futures::stream::iter(vec![Ok::<u8, u8>(a), Ok(2)]).try_fold(0u8, |acc: u8, v: u8| futures::future::ready(Ok::<u8, u8>(acc.wrapping_add(v)))).await }", "Result<u8, u8>"),
+        ("plain_map_filter_collect", "join_async", "%s |> |v: u8| v.wrapping_add(1) ?> |v: &u8| futures::future::ready(*v %% 2 == 0) =>[] Vec<u8>" % PLAIN,
+         "{ use futures::StreamExt; %s.map(|v: u8| v.wrapping_add(1)).filter(|v: &u8| futures::future::ready(*v %% 2 == 0)).collect::<Vec<u8>>().await }" % PLAIN, "Vec<u8>"),
+        ("plain_filter_map_fold", "join_async", "%s ?|> |v: u8| futures::future::ready(if v > 3 { Some(v) } else { None }) ^@ 0u8, |acc: u8, v: u8| futures::future::ready(acc.wrapping_add(v))" % PLAIN,
+         "{ use futures::StreamExt; %s.filter_map(|v: u8| futures::future::ready(if v > 3 { Some(v) } else { None })).fold(0u8, |acc: u8, v: u8| futures::future::ready(acc.wrapping_add(v))).await }" % PLAIN, "u8"),
+        ("plain_zip_spawn", "join_async_spawn", "%s >^> futures::stream::iter(vec![1u8, 2, 3]) =>[] Vec<(u8, u8)>" % PLAIN,
+         "{ use futures::StreamExt; %s.zip(futures::stream::iter(vec![1u8, 2, 3])).collect::<Vec<(u8, u8)>>().await }" % PLAIN, "Vec<(u8, u8)>"),
+    ]
+    for (name, mac, chain, ref, rty) in progs:
+        b = "    let a: u8 = kani::any();\n"
+        b += "    let (r, e): (%s, %s) = block_on_tokio(async move {\n        let r: %s = %s! { %s }.await;\n        let e: %s = %s;\n        (r, e)\n    });\n" % (rty, rty, rty, mac, chain, rty, ref)
+        b += "    assert!(r == e, \"C01: an operator on a stream differs from its documented method chain\");\n"
+        hn = "%s_async_stream_%s" % (prop.lower(), name)
+        out.append(Harness(hn, harness_fn(hn, b), "%s! { %s }" % (mac, chain), note="stream operand, tokio runtime, native"))
+    return out
+
+
 def native_families(pid, tier):
     out = []
     quick = tier == "quick"
+    if pid == "C01":
+        out += _c01_async_stream_harnesses(pid)
     if pid == "C17":
         out += _c17_spawn_nest_harnesses(pid)
     if pid in ("C01", "C03", "C04", "C05", "C06", "C10", "C11", "C12"):
